@@ -4,5 +4,16 @@ pub fn run(_kv: &HashMap<String, String>) -> String {
     "unimplemented\n".to_string()
 }
 pub fn implicit_defaults() -> String {
-    String::new()
+    use ivp::methods::{BDF, RADAU};
+    let r = RADAU::builder().build();
+    let b = BDF::builder().build();
+    let mut s = String::new();
+    s.push_str(&format!(
+        "defaults RADAU {} nstiff={} maxsteps={}\n",
+        crate::hxlist(&[r.uround, r.safety_factor, r.scale_min, r.scale_max]),
+        r.newton_maxiter,
+        r.max_steps
+    ));
+    s.push_str(&format!("defaults BDF {} nstiff={} maxsteps={}\n", "", b.newton_maxiter, b.max_steps));
+    s
 }
